@@ -91,7 +91,10 @@ def triangulate_dataset(
     .. _holoviews: https://holoviews.org/reference/elements/bokeh/TriMesh.html
     .. _trimesh: https://trimsh.org
     """
-    polygons = dataset.ems.polygons
+    # A cell can list one of its vertices twice in a row, for example a mesh
+    # that pads a triangle in a table of quadrilaterals by repeating its last node.
+    # Such an edge of zero length has no ear, and the vertex counts one side too many.
+    polygons = shapely.remove_repeated_points(dataset.ems.polygons)
 
     # Find all the unique coordinates and assign them each a unique index
     all_coords = shapely.get_coordinates(polygons)
